@@ -242,9 +242,11 @@ func verifC01Maintainer(rounds int) {
 	verifLimiterAlwaysGrants()
 	v := verifStartServer(verifSrvOpt{noSecurity: true, concreteID: true})
 	verifFreezeClock(true)
-	for i, b := range []int{3, 5} {
+	// (TableMaintainer works on the first bucket that is not full and good - bucket 0 here; a
+	// questionable contact there is pinged)
+	for i, b := range []int{0, 5} {
 		verifAddContact(v, verifContact{
-			state: verifGood, bucket: b,
+			state: []int{verifGood, verifStale}[verifChoice(0, 1-i)], bucket: b,
 			id:   verifConcreteIDInBucket(v.id, b, byte(i+1)),
 			addr: &net.UDPAddr{IP: net.IP{198, 51, 100, byte(10 + i)}, Port: 2000 + i},
 		})
